@@ -3,7 +3,7 @@
 # is applied in a scratch worktree and the property's quick check must report a violation.
 # Properties run in parallel (3 at a time), the seeds of one property one after the other.
 # Output: .work/seedregress/<name>.out, summary on stdout.
-cd /verif; out=.work/seedregress; rm -rf $out; mkdir -p $out
+cd /verif; out=${OUT:-.work/seedregress}; rm -rf $out; mkdir -p $out
 one_prop() {
   pid=$1; shift
   for d in "$@"; do
@@ -13,14 +13,14 @@ one_prop() {
 }
 export -f one_prop; export out
 for n in 01 02 03 04 05 06 07 08 09 10 11 12 13 14 15 16 17 18 19 20; do
-  dirs=$(ls -d seeded/C$n-* ${1:+$1/c$n-*} 2>/dev/null | tr '\n' ' ')
+  dirs=$(ls -d $([ -z "$ONLY_EXTRA" ] && echo seeded/C$n-*) ${1:+$1/c$n-*} 2>/dev/null | tr '\n' ' ')
   echo "C$n ${dirs% }"
 done | xargs -P 3 -L 1 bash -c 'one_prop "$@"' _
 python3 - <<'PY'
 import glob, re, os
 bad = []
 n = 0
-for f in sorted(glob.glob('/verif/.work/seedregress/*.out')):
+for f in sorted(glob.glob('/verif/' + os.environ.get('OUT', '.work/seedregress') + '/*.out')):
     b = open(f).read(); n += 1
     name = os.path.basename(f)[:-4]
     if 'PATCH DOES NOT' in b: bad.append((name, 'patch-fails'))
